@@ -116,3 +116,284 @@ Proof.
   { destruct (_ && _); [|discriminate]. injection H as <-. cbn [ks_tab]. apply append_preserves; auto. }
   destruct fstype; [discriminate|]. injection H as <-. cbn [ks_tab]. apply append_preserves; auto.
 Qed.
+
+(* ------------------------------------------------------------------ mount ids are decimal numbers *)
+From Coq Require Import ZifyBool ZifyNat ZifyN.
+Open Scope N_scope.
+
+Definition dstep (a : N) (ch : ascii) : N := a * 10 + (bn ch - 48).
+Definition valf (a : N) (s : bytes) : N := fold_left dstep s a.
+Definition val (s : bytes) : N := valf 0 s.
+
+Lemma dstep_digit a d : d < 10 -> dstep a (nb (48 + d)) = a * 10 + d.
+Proof. intros H. unfold dstep. rewrite bn_nb by lia. lia. Qed.
+
+Lemma valf_dec : forall f n acc a, n < 10 ^ N.of_nat f -> a = 0 ->
+  valf a (dec_fuel f n acc) = valf n acc.
+Proof.
+  induction f as [|f IH]; intros n acc a Hn ->.
+  - cbn in Hn. assert (n = 0) by lia. subst. reflexivity.
+  - cbn [dec_fuel]. assert (Hd : n mod 10 < 10) by (apply N.mod_lt; lia).
+    destruct (n / 10 =? 0) eqn:E.
+    + apply N.eqb_eq in E. unfold valf. cbn [fold_left]. rewrite dstep_digit by exact Hd.
+      assert (n = n mod 10). { rewrite (N.div_mod n 10) at 1 by lia. rewrite E. lia. }
+      rewrite <- H. reflexivity.
+    + assert (Hq : n / 10 < 10 ^ N.of_nat f).
+      { rewrite Nat2N.inj_succ, N.pow_succ_r' in Hn. apply N.div_lt_upper_bound; lia. }
+      rewrite IH; [|exact Hq|reflexivity].
+      unfold valf. cbn [fold_left]. rewrite dstep_digit by exact Hd. f_equal.
+      rewrite (N.div_mod n 10) at 3 by lia. lia.
+Qed.
+
+Definition idmax : N := 10 ^ 24.
+
+Lemma val_dec n : n < idmax -> val (dec n) = n.
+Proof. intros H. unfold val, dec. rewrite valf_dec; [reflexivity|exact H|reflexivity]. Qed.
+
+Lemma dec_inj i j : i < idmax -> j < idmax -> dec i = dec j -> i = j.
+Proof. intros Hi Hj E. rewrite <- (val_dec i Hi), <- (val_dec j Hj). now rewrite E. Qed.
+
+Definition isdigit (ch : ascii) : bool := (48 <=? bn ch) && (bn ch <=? 57).
+Lemma dec_fuel_digits f : forall n acc, forallb isdigit acc = true -> forallb isdigit (dec_fuel f n acc) = true.
+Proof.
+  induction f as [|f IH]; intros n acc H; cbn [dec_fuel]; [exact H|].
+  assert (Hd : n mod 10 < 10) by (apply N.mod_lt; lia).
+  assert (H1 : forallb isdigit (nb (48 + n mod 10) :: acc) = true).
+  { cbn [forallb]. rewrite H, andb_true_r. unfold isdigit. rewrite bn_nb by lia. lia. }
+  destruct (n / 10 =? 0); [exact H1|now apply IH].
+Qed.
+Lemma digits_nospace s : forallb isdigit s = true -> nospace s = true.
+Proof.
+  intros H. unfold nospace. apply nosepb_spec. intros Hin. rewrite forallb_forall in H. specialize (H _ Hin).
+  unfold isdigit, sp in H. rewrite bn_nb in H by lia. lia.
+Qed.
+Lemma dec_nospace n : nospace (dec n) = true.
+Proof. apply digits_nospace. apply dec_fuel_digits. reflexivity. Qed.
+
+(* the numbering invariant: every id and parent id is the decimal of a number below the next id
+   (ids from 2 on, parents from 0 on), and the next id still has at most 24 digits *)
+Definition numbered_line (next : N) (k : kline) : bool :=
+  beq (k_id k) (dec (val (k_id k))) && (2 <=? val (k_id k)) && (val (k_id k) <? next)
+  && beq (k_parent k) (dec (val (k_parent k))) && (val (k_parent k) <? next).
+Definition numbered (ks : kstate) : bool :=
+  (2 <=? ks_nextid ks) && (ks_nextid ks <=? idmax) && forallb (numbered_line (ks_nextid ks)) (ks_tab ks).
+
+Lemma numbered_line_spec next k : numbered_line next k = true ->
+  exists i p, k_id k = dec i /\ 2 <= i < next /\ k_parent k = dec p /\ p < next.
+Proof.
+  unfold numbered_line. intros H.
+  apply andb_true_iff in H as [H H5]. apply andb_true_iff in H as [H H4]. apply andb_true_iff in H as [H H3].
+  apply andb_true_iff in H as [H1 H2]. apply beq_true in H1, H4.
+  exists (val (k_id k)), (val (k_parent k)). repeat split; try assumption; lia.
+Qed.
+
+Lemma numbered_line_intro next k i p : next <= idmax -> k_id k = dec i -> 2 <= i < next -> k_parent k = dec p -> p < next ->
+  numbered_line next k = true.
+Proof.
+  intros Hn Hi Hir Hp Hpr. unfold numbered_line. rewrite Hi, Hp, !val_dec by (unfold idmax in *; lia).
+  rewrite !beq_refl. lia.
+Qed.
+
+Lemma numbered_line_mono next next' k : next <= next' -> numbered_line next k = true -> numbered_line next' k = true.
+Proof. unfold numbered_line. intros Hle H. rewrite !andb_true_iff in *. lia. Qed.
+
+(* a number from [next] on is a fresh id and a fresh parent id *)
+Lemma numbered_fresh next tab j : forallb (numbered_line next) tab = true -> next <= j -> j < idmax ->
+  ~ In (dec j) (kids tab) /\ ~ In (dec j) (map k_parent tab).
+Proof.
+  intros H Hj Hm. rewrite forallb_forall in H. split; intros Hin; apply in_map_iff in Hin as (k & E & Hk);
+    destruct (numbered_line_spec _ _ (H k Hk)) as (i & p & Ei & Hi & Ep & Hp).
+  - rewrite Ei in E. apply dec_inj in E; unfold idmax in *; lia.
+  - rewrite Ep in E. apply dec_inj in E; unfold idmax in *; lia.
+Qed.
+
+Lemma numbered_no_one next tab : forallb (numbered_line next) tab = true -> next <= idmax -> ~ In (bs "1") (kids tab).
+Proof.
+  intros H Hn Hin. rewrite forallb_forall in H. apply in_map_iff in Hin as (k & E & Hk).
+  destruct (numbered_line_spec _ _ (H k Hk)) as (i & p & Ei & Hi & _).
+  change (bs "1") with (dec 1) in E. rewrite Ei in E. apply dec_inj in E; unfold idmax in *; lia.
+Qed.
+
+(* parent_id is the id of a line of the table, or "1" *)
+Lemma parent_id_numbered next tab p : forallb (numbered_line next) tab = true -> 2 <= next ->
+  exists q, parent_id tab p = dec q /\ q < next.
+Proof.
+  intros H Hn. unfold parent_id. destruct (covering tab p) as [cv|] eqn:E.
+  - destruct (covering_spec _ _ _ E) as [Hin _]. rewrite forallb_forall in H.
+    destruct (numbered_line_spec _ _ (H cv Hin)) as (i & _ & Ei & Hi & _). exists i. split; [exact Ei|lia].
+  - exists 1. split; [reflexivity|lia].
+Qed.
+
+(* one appended line, numbered [id] with next <= id *)
+Lemma append_numbered tab L next id : kinv tab -> forallb (numbered_line next) tab = true ->
+  2 <= next -> next <= id -> id < idmax ->
+  k_id L = dec id -> k_parent L = parent_id tab (k_mp L) ->
+  kinv (tab ++ [L]) /\ forallb (numbered_line (id + 1)) (tab ++ [L]) = true.
+Proof.
+  intros Hk Hn H2 Hid Hmax Ei Ep. destruct (numbered_fresh next tab id Hn Hid Hmax) as [F1 F2]. split.
+  - apply append_preserves; auto; try (now rewrite Ei).
+    intros _. eapply numbered_no_one; eauto. unfold idmax in *. lia.
+  - rewrite forallb_app. cbn [forallb]. rewrite andb_true_r. apply andb_true_iff. split.
+    + apply forallb_forall. intros k Hkin. rewrite forallb_forall in Hn.
+      eapply numbered_line_mono; [|apply Hn; exact Hkin]. lia.
+    + destruct (parent_id_numbered next tab (k_mp L) Hn H2) as (q & Eq & Hq).
+      eapply (numbered_line_intro (id + 1) L id q); [unfold idmax in *; lia|exact Ei|lia|now rewrite Ep|lia].
+Qed.
+
+(* the submount copies of a recursive bind *)
+Lemma rbind_copies_inv subs src tgt : forall id tab next tab' id',
+  rbind_copies id tab subs src tgt = (tab', id') ->
+  kinv tab -> forallb (numbered_line next) tab = true -> 2 <= next -> next <= id ->
+  id + N.of_nat (length subs) <= idmax ->
+  kinv tab' /\ forallb (numbered_line id') tab' = true /\ id' = id + N.of_nat (length subs).
+Proof.
+  induction subs as [|m r IH]; intros id tab next tab' id' H Hk Hn H2 Hid Hmax; cbn [rbind_copies] in H.
+  - injection H as <- <-. split; [exact Hk|]. split; [|cbn; lia].
+    rewrite forallb_forall in *. intros k Hkin. eapply numbered_line_mono; [|apply Hn; exact Hkin]. exact Hid.
+  - cbn [length] in Hmax. rewrite Nat2N.inj_succ in Hmax.
+    match type of H with rbind_copies _ (tab ++ [?L]) _ _ _ = _ => set (line := L) in * end.
+    destruct (append_numbered tab line next id Hk Hn H2 Hid ltac:(unfold idmax in *; lia) eq_refl eq_refl) as [Hk1 Hn1].
+    destruct (IH (id + 1) (tab ++ [line]) (id + 1) tab' id' H Hk1 Hn1 ltac:(lia) ltac:(lia) ltac:(lia)) as (A & B & C).
+    split; [exact A|]. split; [exact B|]. cbn [length]. rewrite Nat2N.inj_succ. lia.
+Qed.
+
+Lemma rbind_copies_count subs src tgt : forall id tab tab' id',
+  rbind_copies id tab subs src tgt = (tab', id') -> id' = id + N.of_nat (length subs).
+Proof.
+  induction subs as [|m r IH]; intros id tab tab' id' H; cbn [rbind_copies] in H.
+  - injection H as _ <-. cbn. lia.
+  - apply IH in H. cbn [length]. rewrite Nat2N.inj_succ. lia.
+Qed.
+
+Definition kinv2 (ks : kstate) : Prop := kinv (ks_tab ks) /\ numbered ks = true.
+
+(* every successful mount(2), recursive binds included, keeps unique ids, well-formed parent
+   ids and the numbering -- as long as the ids still fit 24 digits *)
+Theorem kmount_preserves_all fs ks src tgt fstype flags data ks' :
+  kmount fs ks src tgt fstype flags data = KOk ks' ->
+  kinv2 ks -> ks_nextid ks' <= idmax ->
+  kinv2 ks'.
+Proof.
+  intros H [Hk Hnum] Hmax'. unfold numbered in Hnum.
+  apply andb_true_iff in Hnum as [Hnum Hn]. apply andb_true_iff in Hnum as [H2 Hm].
+  apply N.leb_le in H2, Hm.
+  unfold kmount in H. cbv zeta in H.
+  assert (Hsame : kinv2 ks).
+  { split; [exact Hk|]. unfold numbered. rewrite Hn. lia. }
+  destruct (has_flag flags MS_REMOUNT).
+  { destruct (top_at (ks_tab ks) tgt); [|discriminate]. injection H as <-. exact Hsame. }
+  destruct (has_flag flags MS_SLAVE).
+  { destruct (top_at (ks_tab ks) tgt); [|discriminate]. injection H as <-. exact Hsame. }
+  destruct (negb (exists_ fs tgt)); [discriminate|].
+  assert (Hone : forall L (tabn : list kline), k_id L = dec (ks_nextid ks) -> k_parent L = parent_id (ks_tab ks) (k_mp L) ->
+            ks_nextid ks < idmax ->
+            kinv (ks_tab ks ++ [L]) /\ forallb (numbered_line (ks_nextid ks + 1)) (ks_tab ks ++ [L]) = true).
+  { intros L _ E1 E2 Hlt. apply (append_numbered (ks_tab ks) L (ks_nextid ks) (ks_nextid ks)); auto; lia. }
+  assert (Hfin : forall L dev, k_id L = dec (ks_nextid ks) -> k_parent L = parent_id (ks_tab ks) (k_mp L) ->
+            ks_nextid ks + 1 <= idmax ->
+            kinv2 (MkKS (ks_tab ks ++ [L]) (ks_nextid ks + 1) dev)).
+  { intros L dev E1 E2 Hle. destruct (Hone L [] E1 E2 ltac:(lia)) as [A B]. split; [exact A|].
+    unfold numbered. cbn [ks_nextid ks_tab]. rewrite B. lia. }
+  destruct (has_flag flags MS_BIND).
+  { destruct (negb (exists_ fs src)); [discriminate|].
+    destruct (covering (ks_tab ks) src) as [cv|]; [|discriminate].
+    destruct (has_flag flags MS_REC).
+    - destruct (rbind_copies _ _ _ src tgt) as [tab2 id2] eqn:Er. injection H as <-. cbn [ks_nextid] in Hmax'.
+      match type of Er with rbind_copies _ (_ ++ [?L]) _ _ _ = _ => set (line := L) in * end.
+      pose proof (rbind_copies_count _ _ _ _ _ _ _ Er) as Hcnt.
+      destruct (Hone line [] eq_refl eq_refl ltac:(lia)) as [A B].
+      destruct (rbind_copies_inv _ src tgt _ _ (ks_nextid ks + 1) _ _ Er A B ltac:(lia) ltac:(lia) ltac:(lia)) as (C & D & E).
+      split; [exact C|]. unfold numbered. cbn [ks_nextid ks_tab]. rewrite D. lia.
+    - injection H as <-. cbn [ks_nextid] in Hmax'. apply Hfin; [reflexivity|reflexivity|exact Hmax']. }
+  destruct (beq fstype overlay).
+  { destruct (_ && _); [|discriminate]. injection H as <-. cbn [ks_nextid] in Hmax'.
+    apply Hfin; [reflexivity|reflexivity|exact Hmax']. }
+  destruct fstype; [discriminate|]. injection H as <-. cbn [ks_nextid] in Hmax'.
+  apply Hfin; [reflexivity|reflexivity|exact Hmax'].
+Qed.
+
+(* ------------------------------------------------------------------ appended lines are printable *)
+Lemma wf_table_snoc tab L : wf_table tab = true -> wf_kline L = true -> wf_table (tab ++ [L]) = true.
+Proof. intros H1 H2. unfold wf_table. rewrite forallb_app. cbn [forallb]. unfold wf_table in H1. now rewrite H1, H2. Qed.
+
+Lemma wf_table_in tab k : wf_table tab = true -> In k tab -> wf_kline k = true.
+Proof. unfold wf_table. rewrite forallb_forall. auto. Qed.
+
+Lemma wf_kline_parts k : wf_kline k = true ->
+  nospace (k_id k) = true /\ nospace (k_dev k) = true /\ nospace (k_opts k) = true /\ nospace (k_fstype k) = true
+  /\ forallb (fun kv => plainopt (fst kv)) (k_sopts k) = true
+  /\ negb (beq (k_fstype k) overlay && match k_sopts k with [] => true | _ => false end) = true.
+Proof.
+  unfold wf_kline. intros H.
+  apply andb_true_iff in H as [H H8]. apply andb_true_iff in H as [H H7]. apply andb_true_iff in H as [H H6].
+  apply andb_true_iff in H as [H H5]. apply andb_true_iff in H as [H H4]. apply andb_true_iff in H as [H H3].
+  apply andb_true_iff in H as [H1 H2]. auto 10.
+Qed.
+
+Lemma parent_id_nospace tab p : wf_table tab = true -> nospace (parent_id tab p) = true.
+Proof.
+  intros H. unfold parent_id. destruct (covering tab p) as [cv|] eqn:E; [|reflexivity].
+  destruct (covering_spec _ _ _ E) as [Hin _]. now destruct (wf_kline_parts _ (wf_table_in _ _ H Hin)).
+Qed.
+
+Lemma nospace_app a b0 : nospace a = true -> nospace b0 = true -> nospace (a ++ b0) = true.
+Proof.
+  unfold nospace. intros Ha Hb. apply nosepb_spec. apply nosepb_spec in Ha, Hb. intros Hin.
+  apply in_app_or in Hin as [Hin|Hin]; auto.
+Qed.
+
+(* a line that copies device, options, type and super options of a well-formed line *)
+Lemma wf_kline_copy tab id mp src0 opts m : wf_table tab = true -> wf_kline m = true -> nospace opts = true ->
+  wf_kline (MkK (dec id) (parent_id tab mp) (k_dev m) src0 mp opts [] (k_fstype m) (k_source m) (k_sopts m)) = true.
+Proof.
+  intros Ht Hm Ho. destruct (wf_kline_parts _ Hm) as (_ & A & _ & B & C & D).
+  unfold wf_kline. cbn [k_id k_parent k_dev k_opts k_optional k_fstype k_sopts forallb].
+  rewrite dec_nospace, (parent_id_nospace tab mp Ht), A, Ho, B, C, D. reflexivity.
+Qed.
+
+Lemma rbind_copies_wf subs src tgt : forall id tab tab' id',
+  rbind_copies id tab subs src tgt = (tab', id') ->
+  wf_table tab = true -> Forall (fun m => wf_kline m = true) subs -> wf_table tab' = true.
+Proof.
+  induction subs as [|m r IH]; intros id tab tab' id' H Ht Hs; cbn [rbind_copies] in H.
+  - now injection H as <- _.
+  - inversion Hs as [|? ? Hm Hr]; subst. eapply IH; [exact H| |exact Hr].
+    apply wf_table_snoc; [exact Ht|]. apply wf_kline_copy; auto.
+    now destruct (wf_kline_parts _ Hm) as (_ & _ & A & _).
+Qed.
+
+Theorem kmount_wf_table fs ks src tgt fstype flags data ks' :
+  kmount fs ks src tgt fstype flags data = KOk ks' ->
+  wf_table (ks_tab ks) = true -> nospace fstype = true -> wf_table (ks_tab ks') = true.
+Proof.
+  intros H Ht Hf. unfold kmount in H. cbv zeta in H.
+  destruct (has_flag flags MS_REMOUNT).
+  { destruct (top_at (ks_tab ks) tgt); [|discriminate]. now injection H as <-. }
+  destruct (has_flag flags MS_SLAVE).
+  { destruct (top_at (ks_tab ks) tgt); [|discriminate]. now injection H as <-. }
+  destruct (negb (exists_ fs tgt)); [discriminate|].
+  destruct (has_flag flags MS_BIND).
+  { destruct (negb (exists_ fs src)); [discriminate|].
+    destruct (covering (ks_tab ks) src) as [cv|] eqn:Ec; [|discriminate].
+    destruct (covering_spec _ _ _ Ec) as [Hcv _]. pose proof (wf_table_in _ _ Ht Hcv) as Hwcv.
+    assert (H1 : wf_table (ks_tab ks ++ [bind_line (ks_nextid ks) (ks_tab ks) cv src tgt]) = true).
+    { apply wf_table_snoc; [exact Ht|]. unfold bind_line. now apply wf_kline_copy. }
+    destruct (has_flag flags MS_REC).
+    - destruct (rbind_copies _ _ _ src tgt) as [tab2 id2] eqn:Er. injection H as <-. cbn [ks_tab].
+      eapply rbind_copies_wf; [exact Er|exact H1|]. apply Forall_forall. intros m Hm.
+      apply filter_In in Hm as [Hm _]. now apply (wf_table_in _ _ Ht).
+    - now injection H as <-. }
+  destruct (beq fstype overlay) eqn:Eo.
+  { destruct (_ && _); [|discriminate]. injection H as <-. cbn [ks_tab]. apply wf_table_snoc; [exact Ht|].
+    unfold wf_kline. cbn [k_id k_parent k_dev k_opts k_optional k_fstype k_sopts forallb].
+    rewrite dec_nospace, (parent_id_nospace _ tgt Ht).
+    match goal with |- context [nospace (?a :: ?b0 :: dec ?n)] =>
+      assert (E : nospace (a :: b0 :: dec n) = true) by exact (nospace_app (bs "0:") _ eq_refl (dec_nospace _)); rewrite E end.
+    reflexivity. }
+  destruct fstype as [|ch r] eqn:Ef; [discriminate|]. injection H as <-. cbn [ks_tab]. apply wf_table_snoc; [exact Ht|].
+  unfold wf_kline. cbn [k_id k_parent k_dev k_opts k_optional k_fstype k_sopts forallb].
+  rewrite dec_nospace, (parent_id_nospace _ tgt Ht).
+  match goal with |- context [nospace (?a :: ?b0 :: dec ?n)] =>
+    assert (E : nospace (a :: b0 :: dec n) = true) by exact (nospace_app (bs "0:") _ eq_refl (dec_nospace _)); rewrite E end.
+  rewrite Hf, Eo. reflexivity.
+Qed.
